@@ -1,15 +1,18 @@
 // C02 enumerator: every sequence of line kinds (one representative per kind) up to length L, through 7 writers x 2 modes.
 //   c02_linekinds enum <L> <shard> <nshards> <outdir>
 //   c02_linekinds random <count> <seed> <minlen> <maxlen> <outdir>
+//   c02_linekinds repeat <reps> <shard> <nshards> <outdir>     every ordered pair of kinds, repeated <reps> times (long documents)
 //   c02_linekinds replay <file>        file: line 1 "fmt=<i> mode=<j>", rest = document
 #include "c02_common.h"
 #include <fstream>
 #include <vector>
 #include <unordered_set>
 
-static const char * K[] = {"text\n", "    code\n", "\tcode\n", "* item\n", "1. item\n", "> quote\n", "```\n", "````\n", "`````\n", "```perl\n",
+// The plain line calls every kind of definition, so that definition blocks are exported and not only parsed; "\n    more\n" is the
+// blank line + indented line pair that continues a definition / list item / note (one composite kind keeps 4-line structures inside L=3).
+static const char * K[] = {"text [^a] [#a] [?a] [>a] [a][]\n", "    code\n", "\tcode\n", "* item\n", "1. item\n", "> quote\n", "```\n", "````\n", "`````\n", "```perl\n",
 	"a | b\n", "--|--\n", ": def\n", "key: value\n", "<div>\n", "<span>x</span>\n", "\n", "***\n", "===\n", "---\n", "# head\n", "[a]: http://x\n",
-	"[^a]: note\n", "[#a]: cite\n", "[?a]: gloss\n", "[>a]: abbr\n", "{{TOC}}\n", "<!--\n", "-->\n", "  text\n", "+\n", "|\n"};
+	"[^a]: note\n", "[#a]: cite\n", "[?a]: gloss\n", "[>a]: abbr\n", "{{TOC}}\n", "<!--\n", "-->\n", "  text\n", "+\n", "|\n", "\n    more\n"};
 static const int NK = sizeof(K) / sizeof(K[0]);
 
 struct Stats { long docs = 0, conv = 0, nontrivial = 0, failures = 0; std::vector<std::string> samples; std::vector<std::string> fails; } S;
@@ -51,7 +54,7 @@ int main(int argc, char ** argv) {
 		std::ifstream f(argv[2]); std::string head; std::getline(f, head); std::string doc((std::istreambuf_iterator<char>(f)), std::istreambuf_iterator<char>());
 		int fi = 0, mi = 0; sscanf(head.c_str(), "fmt=%d mode=%d", &fi, &mi);
 		std::string out; C02Result r = c02_convert(doc, C02_FMTS[fi % 7], C02_MODES[mi % 2], &out);
-		if (r.failure.empty() && doc.compare(0, 5, "text\n") == 0 && (fi <= 4) && out.find("text") == std::string::npos) { r.failure = "text-lost"; }
+		if (r.failure.empty() && doc.compare(0, 5, "text ") == 0 && (fi <= 4) && out.find("text") == std::string::npos) { r.failure = "text-lost"; }
 		if (!r.failure.empty()) { printf("C02-FAIL %s|%s|%s|%s\n", r.failure.c_str(), C02_FMT_NAMES[fi % 7], mi ? "compat" : "mmd", r.detail.c_str()); return 1; }
 		printf("replay ok\n"); return 0;
 	}
@@ -62,6 +65,15 @@ int main(int argc, char ** argv) {
 			long v = idx; std::string doc; int first = v % NK;
 			for (int i = 0; i < L; i++) { doc += K[v % NK]; v /= NK; }
 			run_doc(doc, L, first == 0);
+		}
+		dump(); return 0;
+	}
+	if (argc >= 6 && !strcmp(argv[1], "repeat")) {
+		int reps = atoi(argv[2]); long shard = atol(argv[3]), nsh = atol(argv[4]); outdir = argv[5];
+		for (long idx = shard; idx < (long)NK * NK; idx += nsh) {
+			std::string unit = std::string(K[idx % NK]) + K[idx / NK], doc;
+			for (int i = 0; i < reps; i++) doc += unit;
+			run_doc(doc, 2 * reps, false);
 		}
 		dump(); return 0;
 	}
